@@ -125,7 +125,7 @@ def ms_cross(F, R):
                         "-W", "clippy::disallowed_methods", "-A", "clippy::all", "-A", "clippy::pedantic", "-A", "clippy::nursery",
                         "-A", "clippy::cargo"],
                        cwd=runner.REPO, env=env, capture_output=True, text=True)
-    hits = [l for l in p.stderr.splitlines() if "disallowed" in l]
+    hits = [l for l in p.stderr.splitlines() if "disallowed method" in l or "clippy::disallowed_methods" in l and "warning:" in l and "-W" not in l]
     if p.returncode != 0:
         R.note("clippy cross-check did not run: " + p.stderr[-300:])
         R.ok("MS2x", "(clippy)", "cross-check skipped: clippy run failed (not a verdict)")
